@@ -24,6 +24,8 @@ def parse(files):
             rnd = 1
             if m.startswith("r2-"):
                 rnd, m = 2, m[3:]
+            elif m.startswith("r3-"):
+                rnd, m = 3, m[3:]
             key = (prop, rnd, m)
             r = res.setdefault(key, {"checks": {}, "suite": None, "demo_clean": None, "demo_mutant": None})
             for l in lines[1:]:
@@ -71,8 +73,8 @@ def main():
     res = parse(files)
     rows = []
     for (prop, rnd, m), r in sorted(res.items()):
-        src = "/tmp/seed%s_%s_out/%s" % ("" if rnd == 1 else "2", prop, m)
-        name = m if rnd == 1 else "r2" + m
+        src = "/tmp/seed%s_%s_out/%s" % ("" if rnd == 1 else str(rnd), prop, m)
+        name = m if rnd == 1 else "r%d" % rnd + m
         dst = os.path.join(V, "seeded", prop, name)
         if os.path.exists(os.path.join(src, "patch.diff")):
             os.makedirs(dst, exist_ok=True)
